@@ -71,11 +71,18 @@ def eos_residual(ctx):
     it = interp(ctx)
     box = {}
     runs = []
+    nosolve = []
 
     def run(x):
         bound = {p: reduced_args().get(p, Num(nf.sym(p))) for p in fi0.params}
         val = x.enter(fi0, bound, None, None, None)
         evs = [e for e in x.events if e.kind == "ext_call" and e.data["callee"].startswith("scipy.optimize.")]
+        if len(evs) == 0:
+            # a path that hands back a Z without having solved the equation on it (an early return, or - when the solve
+            # sits in a try block - the handler's fallback value)
+            nosolve.append(dict(x.decider.conds()) if hasattr(x.decider, "conds") else {})
+            runs.append({"F": None, "fi": None, "ev": None})
+            return val
         if len(evs) != 1:
             raise AnalysisError(f"z_factor_DAK: expected exactly one scipy.optimize call, found {len(evs)}")
         a = evs[0].data["args"]
@@ -89,7 +96,26 @@ def eos_residual(ctx):
         runs.append(dict(box))
         return val
 
-    paths = returns(it.explore(run))
+    allpaths = it.explore(run)
+    paths = returns(allpaths)
+    if nosolve:
+        # runs[] is appended once per explored path that reached the end of run() (raising paths do not): pair them up
+        rp = [p_ for p_ in allpaths if p_.outcome == "return"]
+        keep = []
+        for p_, r_ in zip(rp, runs[-len(rp):] if len(runs) >= len(rp) else []):
+            if r_.get("F") is None:
+                tag = ", ".join(("" if c else "not ") + d[:70] for _k, c, d in p_.decisions)
+                ctx.bad(
+                    f"{ctx.prop}-d", q + f":value without a solve [{tag}]", fi0.where(),
+                    "every returned Z comes out of the root finder on that path: a failure of the solve reaches the caller as an exception, never as a fallback value",
+                    signature="no solve " + tag[:80], selected_by=tag,
+                )
+            else:
+                keep.append((p_, r_))
+        paths = [p_ for p_, _r in keep]
+        runs[:] = [r_ for _p, r_ in keep]
+        if len(paths) == 1:
+            box.update(runs[0])
     if len(paths) > 1 and len(runs) >= len(paths):
         # several trace partitions: the same equation and the same result on all of them, or the extra ones are reported
         recs = list(zip(paths, runs[-len(paths):])) if len(runs) == len(paths) else []
